@@ -306,7 +306,12 @@ def matchExpr (variants : List String) (arms : List Arm) (src : V) : Except Err 
 structure FDef where
   arity : Nat
   arms : List (P × E)
+  inputs : List Nat := []        -- the declared input names (`bind_function_inputs`): visible in every arm's body
 deriving Repr
+
+/-- the declared inputs bound to the arguments of the current call; a pattern variable of the same
+    name is found first -/
+def inputsEnv (f : FDef) (args : List S) : Env := (f.inputs.zip args).map (fun p => (p.1, V.sc p.2))
 
 inductive Step where
   | ret (v : S)
@@ -342,8 +347,8 @@ def stepArms (self : List S → Except Err S) (f : FDef) (args : List S) : List 
      | none => stepArms self f args rest
      | some env =>
        match tailShape f body with
-       | some es => (match evalArgs self env es with | .ok xs => .ok (.tail xs) | .error e => .error e)
-       | none => (match evalScalar self env body with | .ok r => .ok (.ret r) | .error e => .error e))
+       | some es => (match evalArgs self (env ++ inputsEnv f args) es with | .ok xs => .ok (.tail xs) | .error e => .error e)
+       | none => (match evalScalar self (env ++ inputsEnv f args) body with | .ok r => .ok (.ret r) | .error e => .error e))
 
 /-- the `loop { … TailCall(next_args) => current_args = next_args }` of
     `execute_user_function`, with a bound on the number of iterations -/
@@ -363,17 +368,17 @@ def callImpl (f : FDef) (it : Nat) : Nat → List S → Except Err S
     if args.length ≠ f.arity then .error .arity else loopArms (callImpl f it d) f it args
 
 /-- the specification: plain recursion — every call, tail or not, is a recursive call -/
-def runArmsRec (self : List S → Except Err S) (args : List S) : List (P × E) → Except Err S
+def runArmsRec (f : FDef) (self : List S → Except Err S) (args : List S) : List (P × E) → Except Err S
   | [] => .error .noArm
   | (p, body) :: rest =>
     (match matchArgs p args [] with
-     | none => runArmsRec self args rest
-     | some env => evalScalar self env body)
+     | none => runArmsRec f self args rest
+     | some env => evalScalar self (env ++ inputsEnv f args) body)
 
 def callRec (f : FDef) : Nat → List S → Except Err S
   | 0, _ => .error .fuel
   | n + 1, args =>
-    if args.length ≠ f.arity then .error .arity else runArmsRec (callRec f n) args f.arms
+    if args.length ≠ f.arity then .error .arity else runArmsRec f (callRec f n) args f.arms
 
 /-- single-argument broadcast: a matrix argument is mapped element by element -/
 def broadcast (call : List S → Except Err S) : List S → Except Err (List S)
